@@ -14,7 +14,12 @@ A section that leaves the model makes the whole case `UNSUP …` (not compared),
 namespace Ecal.Drv.C05
 open Ecal.Drv Ecal.Drv.EvalCommon Ecal.Ev
 
-def splitSections (p : String) : List String := p.splitOn " @ "
+/-- a section `<go program> ~ <model program>` (calls of a call result, see c05Chains in c05.go): the model runs
+    the second program -/
+def splitSections (p : String) : List String :=
+  (p.splitOn " @ ").map fun sec => match sec.splitOn " ~ " with
+    | [_, m] => m
+    | _ => sec
 
 /-- `EvalCommon.decodeInterp` splits an entry at EVERY '=' and so rejects embedded code whose tree has a node named
     `:=`, `==`, `>=` …; here the entry is split at the first '=' only (the code part is hex) -/
